@@ -1,7 +1,7 @@
 """C18 -- see DESIGN.md section 5.  Deductive targets are added below the bounded import."""
 PROP = "C18"
 LEVEL = 'proof'
-EXPLANATION = ('Deductive: the retry loop of Question._validate_attempts is verified with an opaque interviewer/validator model and ghost counters: every invalid entry consumes exactly one attempt and prints exactly one error (the last error is raised, not printed), a limited question fails after exactly the configured number of entries, and the loop terminates -- its measure is the number of lines left on the input, so a question with unlimited attempts gives up at end of input; Question.ask on a non-interactive input returns the default itself and asks, validates and prints nothing, on an interactive one it interviews at least once; SelectChoiceValidator.validate returns only a member of the choices for a typed string or integer and, when multi-select, a list all of whose elements are choices, or raises ValueError (two nested loops, membership invariant by value).  Bounded: exhaustive answer-script trees on real choice / confirmation questions under read and write budgets (membership, index/value interchange, multi-select, non-interactive).')
+EXPLANATION = ('Deductive: the retry loop of Question._validate_attempts is verified with an opaque interviewer/validator model and ghost counters: every invalid entry consumes exactly one attempt and prints exactly one error (the last error is raised, not printed), a limited question fails after exactly the configured number of entries, and the loop terminates -- its measure is the number of lines left on the input, so a question with unlimited attempts gives up at end of input; Question.ask on a non-interactive input returns the default itself and asks, validates and prints nothing, on an interactive one it interviews at least once; SelectChoiceValidator.validate returns only a member of the choices for a typed string or integer and, when multi-select, a list all of whose elements are choices, or raises ValueError (two nested loops, membership invariant by value); the two getters the validator reads (ChoiceQuestion.supports_multiple_choices, error_message) are verified to return the stored fields.  Bounded: exhaustive answer-script trees on real choice / confirmation questions under read and write budgets (membership, index/value interchange, multi-select, non-interactive).')
 LEVEL_NOTE = ('assumes: the interviewer consumes exactly one input line per call or aborts with RuntimeError when none is left; validators are arbitrary; which member the validator picks (value before index, ambiguity, the splitting of a multi-select answer) and the confirmation normaliser are bounded only')
 from pyvc.contracts import REG as R
 from . import question_contracts as qc
